@@ -113,15 +113,10 @@ def mustOmit (patterns : List (List String)) (p : TPath) : Bool :=
 mutual
 def omitEmpty (pats : List (List String)) : GoVal → TPath → GoVal
   | .map kvs, p => .map (omitKVs pats kvs p)
-<<<<<<< HEAD
   | .seq xs, p =>
       -- `c := make([]any, 0, len(v))` + append (since "fix: OmitEmpty keeps an empty sequence empty"): never a nil slice
       .seq (omitList pats xs p)
   | .nilseq, _ => .seq []
-=======
-  | .seq xs, p => .seq (omitList pats xs p)      -- `c := make([]any, 0, len(v))`: an empty sequence stays a non-nil slice
-  | .nilseq, _ => .seq []                        -- (before repo commit "OmitEmpty keeps an empty sequence empty": nil again)
->>>>>>> ag2-C01
   | v, _ => v
 def omitKVs (pats : List (List String)) : List (String × GoVal) → TPath → List (String × GoVal)
   | [], _ => []
